@@ -71,7 +71,7 @@ def main():
         if rc != 0:
             print("DOES NOT BUILD\n", out[-2000:])
         demo_cmd = meta["demo_cmd"]
-        if "<repo>" in demo_cmd or "cp demo_test.go" in demo_cmd:
+        if "<repo>" in demo_cmd or "cp " in demo_cmd:
             # the demo file is already placed in demo_dir: keep only the go invocation
             k = max(demo_cmd.rfind("go test"), demo_cmd.rfind("go run"))
             demo_cmd = demo_cmd[k:]
